@@ -61,7 +61,12 @@ var _ p.DataProvider = urlDataProvider{}
 func (u urlDataProvider) Get(key string) any {
 	// if query param ends with [] its always a slice
 	if len(key) > 2 && key[len(key)-2:] == "[]" {
-		return u.Data[key]
+		v, ok := u.Data[key]
+		if !ok {
+			// a missing parameter is absent, not an empty list
+			return nil
+		}
+		return v
 	}
 
 	if len(u.Data[key]) > 1 {
